@@ -275,12 +275,12 @@ Lemma op_stored_frame s s' s2 reg data :
   sring s2 = sring s' -> sregs s2 = sregs s' -> op_stored s s' reg data -> op_stored s s2 reg data.
 Proof. unfold op_stored. intros -> ->. trivial. Qed.
 
-Lemma step_vi_op s op reg m (argp : option Z) :
+Lemma step_vi_op s op reg m marg (argp : option Z) :
   svi s = true -> ssel s = None ->
   (match argp with Some _ => fix_vi_cursor s = s | None => True end) ->
-  step s (ViOp op reg m) argp =
+  step s (ViOp op reg m marg) argp =
   (let arg := match argp with Some a => if 1000000 <=? a then 1 else a | None => 1 end in
-   let '(code, s') := vi_op s op reg m arg in
+   let '(code, s') := vi_op s op reg m (op_count arg marg) in
    if code =? 0 then (0, with_prev (fix_vi_cursor s') 60)
    else if code =? E_UNMODELLED then (code, s) else (code, with_prev s' 0)).
 Proof.
@@ -289,38 +289,76 @@ Proof.
   destruct argp as [a|]; [rewrite Hfix|]; reflexivity.
 Qed.
 
-Lemma step_vi_op_inline s op reg m (argp : option Z) :
-  svi s = true -> ssel s = None -> Inv (sb s) ->
-  (match argp with Some a => fix_vi_cursor s = s /\ 0 <= a | None => True end) ->
-  op = 0 \/ op = 1 \/ op = 2 -> 0 <= m <= 4 ->
+Lemma op_count_nonneg arg marg : 0 <= arg -> 0 <= marg -> 0 <= op_count arg marg.
+Proof.
+  intros Ha Hm. unfold op_count, clamp6.
+  destruct (marg =? 0); [rewrite Z.mul_1_r; destruct (1000000 <=? arg); lia|].
+  destruct (1000000 <=? marg); [rewrite Z.mul_1_r; destruct (1000000 <=? arg); lia|].
+  destruct (1000000 <=? arg * marg); [lia|]. apply Z.mul_nonneg_nonneg; assumption.
+Qed.
+
+(* [count] [register] operator [count] motion through [step], ANY modelled motion
+   (l h $ 0 ^ e b B w W), counts on either side of the operator: the text object sees
+   the product of the two counts (op_count), and the non-empty data TextObject.cut
+   computes for it goes, unchanged, into the register named BEFORE the operator (or
+   on the unnamed ring), and nowhere else *)
+Lemma step_vi_op_counted s op reg m marg (argp : option Z) start oty t c data :
+  svi s = true -> ssel s = None ->
+  (match argp with Some _ => fix_vi_cursor s = s | None => True end) ->
+  op = 0 \/ op = 1 \/ op = 2 ->
   (op = 1 -> 0 <= reg -> is_register_name reg = true) ->
   let arg := match argp with Some a => if 1000000 <=? a then 1 else a | None => 1 end in
+  let n := op_count arg marg in
+  motion_obj (cur_doc s) m n = Some (start, oty) ->
+  (oty =? EXCLUSIVE) && (start =? 0) = false ->
+  tobj_cut (cur_doc s) start 0 oty = Some (Some (t, c), data) -> ctext data <> [] ->
+  exists s1, step s (ViOp op reg m marg) argp = (0, s1) /\
+    op_stored s s1 reg data /\
+    btext (sb s1) = (if op =? 1 then btext (sb s) else t).
+Proof.
+  intros Hvi Hsel Hfix Hop Hreg arg n Hm Hne Hcut Hd.
+  destruct (vi_op_stores_cut s op reg m n start oty t c data Hop Hm Hne Hreg Hcut Hd) as (s' & E & St & Tx).
+  rewrite (step_vi_op s op reg m marg argp Hvi Hsel Hfix). cbv zeta. fold arg. fold n. rewrite E.
+  change (0 =? 0) with true. cbv iota.
+  eexists. split; [reflexivity|]. cbn [with_prev sb].
+  destruct (fix_frame_any s') as (A & B & C). split.
+  - apply (op_stored_frame s s'); [exact B|exact C|exact St].
+  - rewrite A. exact Tx.
+Qed.
+
+Lemma step_vi_op_inline s op reg m marg (argp : option Z) :
+  svi s = true -> ssel s = None -> Inv (sb s) ->
+  (match argp with Some a => fix_vi_cursor s = s /\ 0 <= a | None => True end) -> 0 <= marg ->
+  op = 0 \/ op = 1 \/ op = 2 -> 0 <= m <= 4 ->
+  (op = 1 -> 0 <= reg -> is_register_name reg = true) ->
+  let arg := op_count (match argp with Some a => if 1000000 <=? a then 1 else a | None => 1 end) marg in
   exists k, motion_obj (cur_doc s) m arg = Some (k, EXCLUSIVE) /\
     - len (current_line_before_cursor (cur_doc s)) <= k <= len (current_line_after_cursor (cur_doc s)) /\
-    (k = 0 -> exists s1, step s (ViOp op reg m) argp = (0, s1) /\
-    btext (sb s1) = btext (sb s) /\ sring s1 = sring s /\ sregs s1 = sregs s) /\
+    (k = 0 -> exists s1, step s (ViOp op reg m marg) argp = (0, s1) /\
+              btext (sb s1) = btext (sb s) /\ sring s1 = sring s /\ sregs s1 = sregs s) /\
     (k <> 0 ->
      let x := bcur (sb s) + Z.min k 0 in
      let y := bcur (sb s) + Z.max k 0 in
      let span := firstn (Z.to_nat (y - x)) (skipn (Z.to_nat x) (btext (sb s))) in
-     exists s1, step s (ViOp op reg m) argp = (0, s1) /\
-    op_stored s s1 reg (mkclip span CHARACTERS) /\
-    btext (sb s1) = (if op =? 1 then btext (sb s)
+     exists s1, step s (ViOp op reg m marg) argp = (0, s1) /\
+       op_stored s s1 reg (mkclip span CHARACTERS) /\
+       btext (sb s1) = (if op =? 1 then btext (sb s)
                         else firstn (Z.to_nat x) (btext (sb s)) ++ skipn (Z.to_nat y) (btext (sb s)))).
 Proof.
-  intros Hvi Hsel Hi Harg Hop Hm Hreg arg.
+  intros Hvi Hsel Hi Harg Hmarg Hop Hm Hreg arg.
   assert (Ha : 0 <= arg).
-  { unfold arg. destruct argp as [a|]; [|lia]. destruct (1000000 <=? a); lia. }
+  { unfold arg. apply op_count_nonneg; [|exact Hmarg].
+    destruct argp as [a|]; [|lia]. destruct (1000000 <=? a); lia. }
   assert (Hfix : match argp with Some _ => fix_vi_cursor s = s | None => True end)
     by (destruct argp; [apply Harg|exact I]).
   destruct (vi_op_inline s op reg m arg Hi Hop Hm Ha Hreg) as (k & Hk & Hr & H0 & H1).
   exists k. split; [exact Hk|]. split; [exact Hr|]. split.
-  - intros Hk0. rewrite (step_vi_op s op reg m argp Hvi Hsel Hfix). cbv zeta. fold arg.
+  - intros Hk0. rewrite (step_vi_op s op reg m marg argp Hvi Hsel Hfix). cbv zeta. fold arg.
     rewrite (H0 Hk0). cbn [ok]. change (0 =? 0) with true. cbv iota.
     eexists. split; [reflexivity|]. cbn [with_prev sb sring sregs].
     destruct (fix_frame_any s) as (A & B & C). repeat split; assumption.
   - intros Hk0. cbv zeta. destruct (H1 Hk0) as (s' & E & St & Tx).
-    rewrite (step_vi_op s op reg m argp Hvi Hsel Hfix). cbv zeta. fold arg. rewrite E.
+    rewrite (step_vi_op s op reg m marg argp Hvi Hsel Hfix). cbv zeta. fold arg. rewrite E.
     change (0 =? 0) with true. cbv iota.
     eexists. split; [reflexivity|]. cbn [with_prev sb].
     destruct (fix_frame_any s') as (A & B & C). split.
